@@ -24,6 +24,8 @@ COMMENT_TEXTS = [
     "nothing special happens below",
     "reviewed twice by the team",
     "grüße aus dem wald – café",
+    "ตัวอย่างคำอธิบายภาษาไทยสำหรับผู้อ่าน",  # 3 bytes per character in UTF-8: byte offsets and character offsets part ways
+    "noted 🙂🙂 by the reviewers 𝒜𝒷",  # outside the BMP: 4 bytes in UTF-8, 2 units in UTF-16
     "step three of the walkthrough",
     "x",
     # remarks that mention names used in the code next to them (still comments: no fact a rule may look at)
